@@ -36,6 +36,28 @@ impl BitMat {
         }
         h
     }
+    /// Same matrix, but the ones are inserted in a seeded random order (the internal lists of
+    /// SparseMatrix keep insertion order, which the alist writer must not leak).
+    pub fn to_sparse_shuffled(&self, seed: u64) -> SparseMatrix {
+        let mut pos: Vec<(usize, usize)> = Vec::new();
+        for i in 0..self.r {
+            for j in 0..self.c {
+                if self.a[i][j] == 1 {
+                    pos.push((i, j));
+                }
+            }
+        }
+        let mut g = Stream::new(seed, "shuffle");
+        for i in (1..pos.len()).rev() {
+            let j = g.below(i as u64 + 1) as usize;
+            pos.swap(i, j);
+        }
+        let mut h = SparseMatrix::new(self.r, self.c);
+        for (i, j) in pos {
+            h.insert(i, j);
+        }
+        h
+    }
     /// alist text written by the harness itself (padded form)
     pub fn to_alist(&self) -> String {
         let cols: Vec<Vec<usize>> = (0..self.c)
